@@ -149,24 +149,24 @@ CHECKS = {
 # what the checks gained while being measured against the seeded changes (DESIGN.md sections 6c and 7.1); appended to the level text
 ADDED = {
   'C01': 'on-tick deadlines, tags above 16 bits, a call in flight when the aperture jitter comes due (+120 s), one-preemption parts',
-  'C02': 'partial writes and 33 s back-pressure, two connections (shared state, 4-byte reads with split replies), tags above 16 bits, a transport-level part (Open() again)',
-  'C03': 'upstream sink re-entering from its reply handler, aperture min_size 3 / tuple endpoints / wall-clock steps, a message object dispatched twice',
+  'C02': 'partial writes and 33 s back-pressure, two connections (shared state, 4-byte reads with split replies), tags above 16 bits, a transport-level part (Open() again), a server that honours discards',
+  'C03': 'upstream sink re-entering from its reply handler, aperture min_size 3 / tuple endpoints / wall-clock steps, a message object dispatched twice, balancers opened with an empty server set',
   'C04': 'upstream sink raising, named endpoints, timeouts while the balancer opens, wall-clock steps, left-the-set-must-close clause',
-  'C05': 'channel-endpoint clause, min=max aperture, Close raising during a leave, named endpoints, first load failing (Exception / BaseException), Open() again',
-  'C06': 'second balancer in the process, sub-millisecond traffic, wall-clock steps, crash-then-leave (steps and settling), stock settings after a prior builder',
-  'C07': 're-entrant consumer, warm-up connection still opening, stock settings after a prior pool, bursts of up to 1200 (5000) queued requests answered synchronously',
+  'C05': 'channel-endpoint clause, min=max aperture, Close raising during a leave, named endpoints, first load failing (Exception / BaseException), Open() again, empty server set at open',
+  'C06': 'second balancer in the process, sub-millisecond traffic, wall-clock steps, crash-then-leave (steps and settling), stock settings after a prior builder, every active member down (also while a replacement opens)',
+  'C07': 're-entrant consumer, warm-up connection still opening, stock settings after a prior pool, bursts of up to 1200 (5000) queued requests answered synchronously, settings given through Clone()',
   'C08': 'bystander transport, re-entrant consumers, expired deadlines, connect timeout without errno, 5-byte reads (EOF inside a frame), open-and-idle-must-carry clause',
-  'C09': 'double outages, two members, hour-long outages, hanging connects with a second pooled connection, close at the first error, prior client, ping-then-hang-up after k callbacks, stale-fault rule and fail-fast-while-up clause',
-  'C10': 'far deadlines, overdue sets, 7 pending actions, on-tick and just-past-tick deadlines at 1 s, callables without __name__, up to 300 (3000) blocking actions',
+  'C09': 'double outages, two members, hour-long outages, hanging connects with a second pooled connection, close at the first error, prior client, ping-then-hang-up after k callbacks, stale-fault rule and fail-fast-while-up clause, three members closed after minutes',
+  'C10': 'far deadlines, overdue sets, 7 pending actions, on-tick and just-past-tick deadlines at 1 s, callables without __name__, up to 300 (3000) blocking actions, clock jumps past several deadlines',
   'C11': 'Kafka transport, back-pressure scripts, replies for tags of queued requests, Rerr / BAD_Rerr, acknowledged discards, Open() again, 4-byte reads, tag counter jumps beyond 16 bits',
   'C12': 'discard-after-write ordering, transport-level parts (also behind a singleton pool), balancer-open hop on the balancer harness, tags above 16 bits, a 70 KB request',
-  'C13': 'interleaved writers under 31 s back-pressure, two service families, non-text property values, a message dispatched repeatedly, DEBUG logging, 3-byte reads / 7-byte sends',
-  'C14': 'history-dependent call sequences, two service families, keyword calls, percent signs in exception texts, pooled timeout-then-call, write splits',
+  'C13': 'interleaved writers under 31 s back-pressure, two service families, non-text property values, a message dispatched repeatedly, DEBUG logging, 3-byte reads / 7-byte sends, frame-boundary and ping-count clauses under back-pressure',
+  'C14': 'history-dependent call sequences, two service families, keyword calls, percent signs in exception texts, pooled timeout-then-call, write splits, an interface three levels deep',
   'C15': 'client id overrides, requests while connecting, call forms, batched replies, small I/O, the complete client x every produce error code, Kafka transport under deadline schedules',
   'C16': 'duplicate fault signals, Busy-reporting sink, killed waiter, yielding Close with a linearization oracle, labels in the shared provider',
   'C17': 'falsy values, BaseException failures, one object at several positions, input list mutated after the call, FromValue inputs',
-  'C18': 'ageing, end-to-end runs, two metric classes, zero amounts, assigned-after-construction sources, increments during an aggregation',
-  'C19': 'value-keyed consumer, restarts with equal data, concurrent readers, kept iterator, the ZooKeeperServerSetProvider path with re-used node names',
+  'C18': 'ageing, end-to-end runs, two metric classes, zero amounts, assigned-after-construction sources, increments during an aggregation, reservoirs still filling when they age',
+  'C19': 'value-keyed consumer, restarts with equal data, concurrent readers, kept iterator, the ZooKeeperServerSetProvider path with re-used node names, same-name re-creation, a snapshot-then-notifications consumer next to non-member children',
   'C20': 'same-named interfaces, decorated / aliased / _async-named methods, colliding keyword names, upper-case URIs, repeated endpoints, repeated SetUri, several parser objects',
 }
 
